@@ -73,6 +73,20 @@ Theorem c06_safe_refuted_rx_window :
 Proof. vm_compute. reflexivity. Qed.
 Print Assumptions c06_safe_refuted_rx_window.
 
+(* poll window: the response arrives between the poll's CAS and its deadline handling; the retry
+   store overwrites RxDone, the response is lost and the retransmission carries the response's
+   bytes instead of the request's *)
+Definition poll_window_history : list op :=
+  [OAlloc; brd1; OMark 0; OTxClaim; OTxDone 0 0; OPollBegin 0; ORx resp_brd1; OPollEnd 0 4 true 1].
+
+Theorem c06_safe_refuted_poll_window :
+  let '(s0, _) := run_ops false (pinit 1 60) [OAlloc; brd1; OMark 0; OTxClaim] in
+  let first_tx := frame_bytes s0 0 in
+  let '(s, _) := run_ops false (pinit 1 60) poll_window_history in
+  sst (get s 0) = SSendable /\ frame_bytes s 0 <> first_tx.
+Proof. vm_compute. split; [reflexivity|discriminate]. Qed.
+Print Assumptions c06_safe_refuted_poll_window.
+
 (* non-vacuity of the count theorem *)
 Example c06_example :
   let '(s1, _) := alloc (pinit 2 60) in
